@@ -276,11 +276,13 @@ structure Cfg where
   callTypeFirst : Bool   -- _get_attribute refuses data descriptors found on the type before getattr(obj, ..)
   getPriv : Bool         -- _get_exposed_property_value tests is_private_attribute first
   setPriv : Bool         -- _set_exposed_property_value tests is_private_attribute first
+  nonStrType : Bool      -- is_private_attribute refuses every non-string with TypeError (isinstance guard) instead of
+                         -- failing with AttributeError on `name.startswith` for hashable non-strings
   deriving DecidableEq, Repr
 
 /-- server.py:880-893 `_get_attribute` -/
 def getAttribute (cfg : Cfg) (sh : Shape) : ReqName → Except Err Obj × List Nat
-  | .hashable => (.error .attr, [])
+  | .hashable => (.error (if cfg.nonStrType then .type else .attr), [])
   | .unhashable => (.error .type, [])
   | .str n =>
     if isPrivate n then (.error .priv, [])
@@ -295,9 +297,9 @@ def exposedOpt : Option Fn → Bool
   | none => false
 
 /-- what `is_private_attribute` / `getattr(cls, name)` do with a non-string name -/
-def nonStrErr (privChecked : Bool) : ReqName → Err
+def nonStrErr (cfg : Cfg) (privChecked : Bool) : ReqName → Err
   | .unhashable => .type
-  | .hashable => if privChecked then .attr else .type
+  | .hashable => if privChecked then (if cfg.nonStrType then .type else .attr) else .type
   | .str _ => .attr
 
 /-- server.py:973-983 `_get_exposed_property_value` -/
@@ -312,7 +314,7 @@ def getProp (cfg : Cfg) (sh : Shape) : ReqName → Except Err Unit × List Nat
         | some f => if f.exposed then (.ok (), [f.fid]) else (.error .unprop, [])
         | none => (.error .unprop, [])
       | some _ => (.error .unprop, [])
-  | rn => (.error (nonStrErr cfg.getPriv rn), [])
+  | rn => (.error (nonStrErr cfg cfg.getPriv rn), [])
 
 /-- server.py:986-997 `_set_exposed_property_value` -/
 def setProp (cfg : Cfg) (sh : Shape) : ReqName → Except Err Unit × List Nat
@@ -326,7 +328,7 @@ def setProp (cfg : Cfg) (sh : Shape) : ReqName → Except Err Unit × List Nat
         | some f => if exposedOpt (primary g s d) then (.ok (), [f.fid]) else (.error .unprop, [])
         | none => (.error .unprop, [])
       | some _ => (.error .unprop, [])
-  | rn => (.error (nonStrErr cfg.setPriv rn), [])
+  | rn => (.error (nonStrErr cfg cfg.setPriv rn), [])
 
 /-- a request as `handleRequest` sees it after `loadsCall` -/
 structure Req where
